@@ -420,6 +420,23 @@ pub fn c09(ctx: &mut Ctx) {
         let line2 = format!("lexc {}", string_wire(&sx));
         ctx.op(&line2);
     }
+    // ---------------- Display of ParseError (string table with formatting of index and character)
+    for line in ["errmsg parse IE", "errmsg parse EE"] {
+        ctx.op(line);
+        ctx.nontrivial(line);
+    }
+    for _ in 0..(if ctx.thorough { 2000 } else { 300 }) {
+        let i = match ctx.rng.below(4) { 0 => 0, 1 => ctx.rng.below(10), 2 => ctx.rng.below(1000), _ => ctx.rng.below(1 << 40) };
+        let c = *ctx.rng.pick(&['x', '-', '\'', 'ƒ', '\u{3000}', '9', '\\']);
+        let line = format!("errmsg parse IC {} {}", i, c as u32);
+        let r = ctx.op(&line);
+        ctx.nontrivial(&line);
+        let want = format!("lexical error; invalid character '{}' at {}", c, i);
+        let w: Vec<String> = want.chars().map(|ch| (ch as u32).to_string()).collect();
+        if r != format!("{} {}", w.len(), w.join(" ")) {
+            ctx.fail("Display of ParseError::InvalidCharacter is not the documented message", &[line]);
+        }
+    }
     // ---------------- arbitrary strings: no panic (PANIC is flagged by ctx.op), stages agree with the model
     let pool: Vec<char> = "λ\\().  \t\nabxyzAF019gG-_ƒℵé\u{3000}\u{0660}Ⅷ".chars().collect();
     let n = if ctx.thorough { 60000 } else { 8000 };
